@@ -177,7 +177,11 @@ def check_case(case):
         body = case["defs"][0]
         import re
 
-        must = bool(re.search(r"\b(open|eval|exec)\b", body))
+        # "containing" = in the code of the function (names / calls); a mention in a comment is not code, a mention
+        # in a string literal is rejected by the implementation but not demanded here
+        import ast as _ast
+
+        must = any(isinstance(n, _ast.Name) and n.id in ("open", "eval", "exec") for n in _ast.walk(_ast.parse(body)))
         ok = isinstance(res, dict) and "error" in res
         if must and not ok:
             vio.append(dict(signature=dict(monitor="forbidden-body", event="compiled"), triggers=[], detail=dict(body=body, result=str(res)[:300])))
@@ -194,7 +198,10 @@ def check_case(case):
         if all(isinstance(v, (int, float)) and not isinstance(v, bool) and (not isinstance(v, float) or math.isfinite(v)) for v in want):
             desc = str(res.get("error", {}).get("description", "")) if isinstance(res, dict) else ""
             if "Running out of registers" not in desc:
-                vio.append(dict(signature=dict(monitor="constexpr-eval", event="error-for-evaluable-call"), triggers=[], detail=dict(error=desc[:400], expected=want, program=str(src)[:900])))
+                trig = []
+                if case.get("module") and any("cx_nested" in c["text"] for c in case["calls"]):
+                    trig.append("module_constexpr_calls_sibling_constexpr")
+                vio.append(dict(signature=dict(monitor="constexpr-eval", event="error-for-evaluable-call", exc="NameError" if "NameError" in desc else "other"), triggers=trig, detail=dict(error=desc[:400], expected=want, program=str(src)[:900])))
         return dict(verdict="violated" if vio else "skip", counters=cnt, violations=vio, features=[case["stream"]])
     cnt["compiled"] = 1
     code = res["code"]
